@@ -363,6 +363,54 @@ func verifControlEqUse(a, b *verifControlEqT) (bool, float64, string) {
 	return a.verifControlEqBad(b) && a.verifControlEqGood(b), *a.A, a.B
 }
 
+// ---- INST-2 / TRS-1
+
+func (w *Writer) verifControlFlagBad(list []trs.TRS) ExtGpuInstancing {
+	ext := ExtGpuInstancing{Attributes: map[string]int{}}
+	scaled := false
+	for _, t := range list {
+		scaled = t.Scale() != vector3.One[float64]() // only the last instance decides
+	}
+	if scaled {
+		ext.Attributes["SCALE"] = len(w.accessors)
+	}
+	return ext
+}
+
+func (w *Writer) verifControlFlagGood(list []trs.TRS) ExtGpuInstancing {
+	ext := ExtGpuInstancing{Attributes: map[string]int{}}
+	scaled, allUnit := false, true
+	for _, t := range list {
+		scaled = scaled || t.Scale() != vector3.One[float64]()
+		if t.Scale() != vector3.One[float64]() {
+			allUnit = false
+		}
+	}
+	if scaled {
+		ext.Attributes["SCALE"] = len(w.accessors)
+	}
+	if !allUnit {
+		ext.Attributes["ROTATION"] = len(w.accessors)
+	}
+	return ext
+}
+
+func verifControlTRSBad(n *Node, m PolyformModel) {
+	if m.Scale != nil {
+		arr := [3]float64{roundFloat(m.Scale.X(), 3), m.Scale.Y() * 1, m.Scale.Z()}
+		n.Scale = &arr
+	}
+}
+
+func verifControlTRSGood(n *Node, m PolyformModel) {
+	if s := m.Scale; s != nil {
+		arr := verifControlArr(*s)
+		n.Scale = &arr
+	}
+}
+
+func verifControlArr(v vector3.Float64) [3]float64 { return [3]float64{v.X(), v.Y(), v.Z()} }
+
 // ---- SINK-1 / BUF-1
 
 func verifControlSinkBad() *Writer {
@@ -475,6 +523,10 @@ var ctlCases = []ctlCase{
 	{"INST-1", "verifControlInstGood", ob.Holds},
 	{"EQ-1", "verifControlEqBad", ob.Violation},
 	{"EQ-1", "verifControlEqGood", ob.Holds},
+	{"INST-2", "verifControlFlagBad", ob.Violation},
+	{"INST-2", "verifControlFlagGood", ob.Holds},
+	{"TRS-1", "verifControlTRSBad", ob.Violation},
+	{"TRS-1", "verifControlTRSGood", ob.Holds},
 	{"SINK-1", "verifControlSinkBad", ob.Violation},
 	{"SINK-1", "verifControlSinkGood", ob.Holds},
 	{"BUF-1", "verifControlBufBad", ob.Violation},
